@@ -2,7 +2,7 @@
    tokens:  bytes x<hex>     padding mode  default | keep | c<hex>
             meta items   h | i | f<hex> | o<hex>  comma separated ("-" = none)
             traks        <s|c><a|v>:<rel>/<rel>/...   comma separated ("-" = none; rel hex, may be negative)
-            moofs        <1|0>:<rel>:<tail>           comma separated ("-" = none)                          *)
+            moofs        <tf_flags hex>:<rel>:<tail>           comma separated ("-" = none)                          *)
 open Common
 open Py
 open Fam_mp4
@@ -41,15 +41,15 @@ let trak_of s =
   | _ -> failwith "trak"
 let moof_of s =
   match String.split_on_char ':' s with
-  | [fl; rel; tail] -> { mf_flag = (fl = "1"); mf_rel = z_of_string rel; mf_tail = z_of_string tail }
+  | [fl; rel; tail] -> { mf_flags = z_of_string fl; mf_rel = z_of_string rel; mf_tail = z_of_string tail }
   | _ -> failwith "moof"
 
-let layout_of [mf; udta; uf; ux; meta; ilst; traks; moofs; mdat; big; topfree; size0] =
+let layout_of [mf; udta; uf; ux; meta; ilst; traks; moofs; mdat; big; topfree; size0; mdat2] =
   { ly_moov_first = bool_of_string mf; ly_udta = z_of_string udta; ly_udta_first = bool_of_string uf;
     ly_udta_extra = z_of_string ux; ly_meta = Stdlib.List.map mitem_of (split ',' meta);
     ly_ilst = bytes_of_hex ilst; ly_traks = Stdlib.List.map trak_of (split ',' traks);
     ly_moofs = Stdlib.List.map moof_of (split ',' moofs); ly_mdat = bytes_of_hex mdat;
-    ly_big = z_of_string big; ly_topfree = z_of_string topfree; ly_size0 = bool_of_string size0 }
+    ly_big = z_of_string big; ly_topfree = z_of_string topfree; ly_size0 = bool_of_string size0; ly_mdat2 = bytes_of_hex mdat2 }
 
 let entry_string (((k, a), i), v) =
   string_of_z k ^ ":" ^ string_of_z a ^ ":" ^ string_of_z i ^ ":" ^ string_of_z v
